@@ -435,7 +435,7 @@ func genE2E(r *vRng, tier string, w *bufio.Writer) {
 			devID: r.pick(0, 1, 4242), devName: []string{"dev-x", "cacophonator-7", "a"}[r.intn(3)],
 			lat: []float32{-43.5, 0, 12.25}[r.intn(3)], lon: []float32{172.5, 0, -70.125}[r.intn(3)],
 			alt: []float32{0, 103.5}[r.intn(2)], acc: []float32{0, 5.5}[r.intn(2)],
-			serial: r.pick(0, 1234, 99999), firmware: []string{"1.2.3", "3.3.26", "v9"}[r.intn(3)]}
+			serial: r.pick(0, 1234, 99999, 4294967301), firmware: []string{"1.2.3", "3.3.26", "v9"}[r.intn(3)]}
 		c.min = r.pick(0, 1, 2)
 		c.max = c.min + r.pick(0, 1, 2)
 		c.diskNear = r.pick(0, 1)
